@@ -10,7 +10,7 @@ S none|map|lru<N> <disable 0|1> -|id:FLAGS,…    FLAGS ⊆ PCORTF        new ex
 R <q> <op|_> <vars bits|-> <pmrej|-> <pmrw id>q,…|-> <cmrej|-> <blk|-> <xerr> <emit> <polls>
     → <ok|rej> <resps> <log> #<gate> <rules>
 C <the ten R fields> <ok|rej> <resps> <log>     Spec.ok of an observation (state unchanged) → ok | violates:…
-W <g> <n> <schedule i.i.i…>                      Race.exec: → seen lists of all threads + global
+W <atomic 0|1> <g> <n> <schedule i.i.i…>                     Race.exec: → seen lists of all threads + global
 ```
 -/
 open GqlgenVerif GqlgenVerif.Pipeline
@@ -239,10 +239,10 @@ def step (st : DState) (line : String) : DState × String :=
             else (st, if rs ≠ ers then "violates:answers" else "violates:?")
       | _, _ => (st, "bad-obs")
     | _, _ => (st, "bad-op")
-  | ["W", g, n, sched] =>
+  | ["W", atm, g, n, sched] =>
     match parseRules g, n.toNat?, natList sched "." with
     | some g, some n, some sc =>
-      let s := Race.exec (Race.start g n) sc
+      let s := Race.exec (Race.start (atm == "1") g n) sc
       let seen := s.threads.map fun t => match t.seen with
         | some l => showRules l
         | none => "?"
